@@ -427,7 +427,7 @@ func (s *Sim) mirrorLocked(v Violation) {
 	switch {
 	case v.Prop == "C09" && (v.Clause == "c" || v.Clause == "e" || v.Clause == "g"):
 		clause = "c"
-	case v.Prop == "C01" || v.Prop == "C03" || v.Prop == "C07":
+	case v.Prop == "C01" || v.Prop == "C03" || v.Prop == "C07" || v.Prop == "C06":
 		clause = "b"
 	}
 	if clause == "" {
